@@ -20,6 +20,8 @@ OUTSIDE = ["which programs produce which termination; student-line locations bey
 ASSUMPTIONS = ["exec stub as described", "_start_patches/_stop_patches run untraced", "result_proxy_class = None",
                "threaded obligations: the worker thread runs untraced (concrete values only cross the thread boundary)"]
 
+CANARIES = {'harness/C04_contain.py': 'stub_canary()'}   # harness file -> native call that must return True, else its stubs are dead
+
 
 def obligations(tier):
     w = "entry point returns normally; sandbox.exception is the raised object; exactly one triggered runtime feedback of the mapped class (none for a normal end)"
